@@ -31,69 +31,12 @@ PROPS = {
                       "expiry is exercised only far from the comparison boundary; the refresh timer of local providers is not modelled.",
         "assumptions": ["max_providers_per_key >= 1 (as in the property text)", "HashMap iteration order is not observable (dumps are sorted)"],
     },
-    "C08": {
-        "coq_dir": "C08",
-        "coq_deps": ["Ts"],
-        "model_files": ["Glue"],
-        "harness": "c08",
-        "cases": {"quick": 1500, "thorough": 10000},
-        "consts": [],
-        "nontrivial_min_trace": 40,
-        "rule": "online-generated histories against a real TransportService (cfg(verif) wrapper) with real ConnectionHandles whose command "
-                "receivers the harness owns: 1-3 peers, <= 2 overlapping connections per peer (10 % of the cases allow a third, 8 % inject "
-                "answers for unknown ids / closes of unknown connections: outside the environment assumption, diffed but not judged), "
-                "open_substream calls, opened/failure answers on either connection, inbound substreams, other protocols' senders, substream "
-                "drops, draws from the shared id counter; 8-60 ops (10-120 thorough); plus cases/25 real-time cases (T = 100/300/500 ms on a "
-                "200 ms grid) with keep-alive downgrades. After every op: emitted TransportEvents, open_substream result, commands seen on "
-                "each connection's channel, Active->Inactive flips, and a dump (per peer primary/secondary id and active flag, next substream "
-                "id, tracked keys, number of armed sleeps, per channel whether a strong sender exists) are compared with the extracted model; "
-                "non-trivial = trace of >= 40 numbers; distinct = distinct (case, trace) pairs",
-        "trusted_base": [
-            "environment assumption of the theorems: connection ids are fresh and at most two connections per peer are open at a time (C06's guarantee), closed/substream notifications refer to an open connection (per-connection FIFO of the connection task), answers refer to an open request",
-            "atomic-handler abstraction: one input per poll_next; several queued events drained in one poll before the timers are looked at are modelled as consecutive polls at the same instant",
-            "the harness plays the connection task and the protocol (holds permits of opens in flight, answers them, keeps/drops substreams); SubstreamOpened carries a real tcp::Substream over a dead yamux stream",
-        ],
-        "level_text": "Proof: for every feasible history (any peers, any interleaving of <= 2 overlapping connections per peer, opens, answers, polls) the "
-                      "per-peer event stream of the model is (Established (SubstreamOpened|OpenFailure)* Closed)* — alternation and substream scope —, the "
-                      "(primary, secondary) view equals the open connections in establishment order at every step, returned substream ids are strictly "
-                      "increasing for every history, and an OpenSubstream command is produced only by an accepted open, carries its id and targets the oldest "
-                      "open connection; a counterexample shows the two-per-peer assumption is needed. The model is tied to transport_service.rs / connection.rs "
-                      "by a per-operation differential run with state dumps; the trace oracle additionally checks answered-at-most-once-with-the-same-id.",
-        "level_note": "Trusted: Coq kernel, extraction, harness and hooks, the environment assumption (discharged by C06 for the connection count), the "
-                      "atomic-handler abstraction. 'Each request answered at most once with the same id' and 'exactly once unless the connection terminates' "
-                      "are obligations of the connection task: the service forwards every answer unchanged (checked by the oracle on every trace), they are "
-                      "not theorems here. ChannelClogged (full command channel) and usize wrap of the id counter are not modelled.",
-        "assumptions": ["at most two open connections per peer, fresh connection ids (C06)", "per-connection FIFO: no substream/closed notification for a connection before its established or after its closed notification",
-                        "HashMap / FuturesUnordered iteration order is not observable (dumps and downgrade lists are sorted)"],
-    },
-    "C09": {
-        "coq_dir": "C09",
-        "coq_deps": ["Ts"],
-        "model_files": ["Glue"],
-        "harness": "c09",
-        "cases": {"quick": 160, "thorough": 2400},
-        "harness_timeout": 3000,
-        "consts": [],
-        "nontrivial_min_trace": 40,
-        "rule": "`cases` real-time schedules (T = 100/300/500 ms, ops on a 200 ms grid so that every keep-alive deadline is 100 ms away from every "
-                "poll; 6-14 ops: establish, open, answer, inbound substream, drop substream, other protocols' senders, close, idle polls; keep-alive "
-                "and non-keep-alive protocol; a run whose steps drifted > 45 ms from the grid is repeated) plus 2*cases untimed reference-counting "
-                "histories, all against a real TransportService; compared per op with the extracted model: events, Active->Inactive flips, handle "
-                "active flags, tracked keys, number of armed sleeps, per channel whether a strong sender exists (= the connection task keeps running)",
-        "trusted_base": [
-            "tokio: sleep does not fire early, mpsc WeakSender::upgrade succeeds iff a strong sender exists, the connection task exits when the last strong sender is gone (tcp/connection.rs, not exercised here)",
-            "real time: the tracker reads std::time::Instant; the behavioural tie holds on a 200 ms grid with 100 ms margins (runs with > 45 ms drift are repeated), not at the deadline itself",
-            "atomic-handler abstraction: the service is polled to quiescence after every input; a sleep is armed when first polled",
-        ],
-        "level_text": "Proof (logical time, every timeout T, every history): the recorded last-activity time of a tracked connection equals the time of its "
-                      "last keep-alive activity per an independent specification, an armed sleep due <= last + T always exists; a handle is downgraded only "
-                      "when that activity is >= T old (not before); a poll at or after last + T untracks the key and leaves the handle Inactive (closes); "
-                      "substreams of a non-keep-alive protocol move no time and re-activate nothing; a permit in flight or a live keep-alive substream keeps "
-                      "the channel's strong count positive, and with none of them and no other protocol it is zero. Tied to the code by a real-time "
-                      "differential run.",
-        "level_note": "Partial for real time: timer accuracy, executor latency and tokio channel semantics are assumptions; the end-to-end close of the TCP "
-                      "connection task (handle_protocol_command(None)) is not exercised; 'at most one armed sleep per tracked connection' is checked on "
-                      "traces only as tracked <= armed (not a theorem).",
-        "assumptions": ["armed sleeps are polled (the protocol's event loop polls the service when woken)", "time is monotone"],
-    },
 }
+
+# entries kept one per file in tools/props.d/<ID>.py as `ENTRY = {...}`
+import glob as _glob, importlib.util as _ilu, os as _os
+for _f in sorted(_glob.glob(_os.path.join(_os.path.dirname(_os.path.abspath(__file__)), "props.d", "*.py"))):
+    _spec = _ilu.spec_from_file_location("props_d_" + _os.path.basename(_f)[:-3], _f)
+    _m = _ilu.module_from_spec(_spec)
+    _spec.loader.exec_module(_m)
+    PROPS[_os.path.basename(_f)[:-3]] = _m.ENTRY
